@@ -379,6 +379,18 @@ def run(scn: Dict[str, Any]) -> TcpRun:
     from aioswitcher.api.remotes import SwitcherBreezeRemote
     cfg = scn["config"]
     out = TcpRun()
+    import logging
+    lg = logging.getLogger("aioswitcher")
+    old_level = lg.level
+    # the application's logging configuration is part of the environment
+    lg.setLevel({"DEBUG": logging.DEBUG, "INFO": logging.INFO}.get(cfg.get("log"), logging.WARNING))
+    try:
+        return _run(scn, cfg, out, SwitcherType1Api, SwitcherType2Api, SwitcherBreezeRemote)
+    finally:
+        lg.setLevel(old_level)
+
+
+def _run(scn, cfg, out, SwitcherType1Api, SwitcherType2Api, SwitcherBreezeRemote):
     with SimContext(cfg.get("sched", 0), cfg.get("epoch0", 1_600_000_000), cfg.get("tz")) as ctx:
         sim = ctx.sim
         out.sim = sim
